@@ -9,7 +9,7 @@
 (*    event is the next step of the named action with the logged thread    *)
 (*    and file, and Worker's invariants hold in every state on the way.    *)
 (***************************************************************************)
-EXTENDS Worker, SequencesExt, Json, IOUtils
+EXTENDS Worker, WorkerOutcome, Json, IOUtils
 
 Recs == ndJsonDeserialize(IOEnv.TRACE)
 Cfg == Recs[1]
@@ -38,15 +38,7 @@ TraceNext ==
 TraceSpec == TraceInit /\ [][TraceNext]_tvars
 
 \* ---- acceptance ------------------------------------------------------------
-BagOfSeq(s) == [x \in ToSet(s) |-> Cardinality({ k \in 1..Len(s) : s[k] = x })]
-OutcomeReasons ==
-    (IF Cfg.parsed THEN {} ELSE {"output-not-well-formed"})
-    \cup (IF BagOfSeq(Cfg.printed) = BagOfSeq(Cfg.expected) THEN {}
-          ELSE IF ToSet(Cfg.printed) \ ToSet(Cfg.expected) # {} THEN {"record-not-in-any-per-file-run"}
-          ELSE IF ToSet(Cfg.expected) \ ToSet(Cfg.printed) # {} THEN {"record-lost"} ELSE {"record-duplicated"})
-    \cup (IF Cfg.scanned = Cfg.n_files THEN {} ELSE {"scanned-count"})
-    \cup (IF Cfg.skipped = Cfg.faulty THEN {} ELSE {"skipped-count"})
-    \cup (IF Cfg.exit = 0 THEN {} ELSE {"exit-status"})
+OutcomeReasons == OutcomeReasonsOf(Cfg)
 
 \* printed when the last event has been consumed (or from the postcondition when the trace was rejected)
 Accepted == (l = Len(Events) + 1) =>
